@@ -86,7 +86,7 @@ PROPS = {
                      "Sqlize.C01.columns_on_reference_engine", "Sqlize.columns_spec_up", "Sqlize.colExecAll_of_abs", "Sqlize.colExecAll_set", "Sqlize.execAll_of_colExecAll", "Sqlize.added_column_def", "Sqlize.Table.walkCols_stmtCols",
                      "Sqlize.C01.changed_column_modified", "Sqlize.perm_of_not_changed", "Sqlize.ckey_inj", "Sqlize.Table.diff_like", "Sqlize.Table.walkCols_modify",
                      "Sqlize.C01.equal_primary_key_untouched", "Sqlize.C01.tables_from_scripts", "Sqlize.Migration.migrate_tbl",
-                     "Sqlize.Migration.diffTables2_appends", "Sqlize.proved_up", "Sqlize.Tie.element_skeleton_as_modelled", "Sqlize.Tie.api_load_skeleton_as_modelled"],
+                     "Sqlize.Migration.diffTables2_appends", "Sqlize.proved_up", "Sqlize.Tie.element_skeleton_as_modelled", "Sqlize.Tie.api_load_skeleton_as_modelled", "Sqlize.C01.schema_on_reference_engine_either_setting", "Sqlize.schema_up_any", "Sqlize.execAll_strip"],
         "suites": [{"name": "pair"}],
         "corr_points": ["load-old", "load-new", "state-old", "state-new", "Diff", "state-diff", "StringUp"],
         "rule": PAIR_RULE,
@@ -124,7 +124,7 @@ PROPS = {
                      "Sqlize.C02.columns_on_reference_engine", "Sqlize.columns_spec_down", "Sqlize.removed_column_def", "Sqlize.Table.diffCols2_mem_full",
                      "Sqlize.C02.indexes_with_dropped_columns", "Sqlize.Abs.Idx.emitDownSup_correct", "Sqlize.Table.walkIdx_refines_down_sup",
                      "Sqlize.equal_pk_untouched_down", "Sqlize.table_spec_down_any", "Sqlize.table_stmts_justified_down", "Sqlize.loaded_table_spec",
-                     "Sqlize.schema_spec_down", "Sqlize.C02.schema_on_reference_engine", "Sqlize.C02.up_then_down_on_reference_engine", "Sqlize.proved_down", "Sqlize.Tie.element_skeleton_as_modelled", "Sqlize.Tie.api_load_skeleton_as_modelled"],
+                     "Sqlize.schema_spec_down", "Sqlize.C02.schema_on_reference_engine", "Sqlize.C02.up_then_down_on_reference_engine", "Sqlize.proved_down", "Sqlize.Tie.element_skeleton_as_modelled", "Sqlize.Tie.api_load_skeleton_as_modelled", "Sqlize.C02.schema_on_reference_engine_either_setting", "Sqlize.schema_down_any"],
         "suites": [{"name": "pair"}],
         "corr_points": ["load-old", "load-new", "state-old", "state-new", "Diff", "state-diff", "StringUp", "StringDown"],
         "rule": PAIR_RULE,
@@ -147,7 +147,7 @@ PROPS = {
         "lean_modules": ["SqlizeModel.Props.C03", "SqlizeModel.Proofs.ScopeB", "SqlizeModel.Props.TieElement", "SqlizeModel.Props.TieApiLoad"],
         "theorems": ["Sqlize.C03.unchanged_prints_nothing", "Sqlize.C03.same_options_unchanged", "Sqlize.migrate_quiet",
                      "Sqlize.C03.equal_content_empty", "Sqlize.C03.self_diff_empty", "Sqlize.C03.same_script_empty", "Sqlize.C03.equal_schemas_from_scripts",
-                     "Sqlize.hasChangedOptions_of_perm", "Sqlize.ReaderMysql.step_plain", "Sqlize.table_same", "Sqlize.Table.diff_same", "Sqlize.Migration.diff_same", "Sqlize.C03.schema_on_reference_engine", "Sqlize.C03.equal_table_never_justified", "Sqlize.schema_c03", "Sqlize.dbEquiv_of_equiv", "Sqlize.proved_both", "Sqlize.Tie.element_skeleton_as_modelled", "Sqlize.Tie.api_load_skeleton_as_modelled"],
+                     "Sqlize.hasChangedOptions_of_perm", "Sqlize.ReaderMysql.step_plain", "Sqlize.table_same", "Sqlize.Table.diff_same", "Sqlize.Migration.diff_same", "Sqlize.C03.schema_on_reference_engine", "Sqlize.C03.equal_table_never_justified", "Sqlize.schema_c03", "Sqlize.dbEquiv_of_equiv", "Sqlize.proved_both", "Sqlize.Tie.element_skeleton_as_modelled", "Sqlize.Tie.api_load_skeleton_as_modelled", "Sqlize.C03.schema_on_reference_engine_either_setting", "Sqlize.schema_c03_any"],
         "suites": [{"name": "pair"}, {"name": "struct", "kind": "struct"}],
         "corr_points": ["load-old", "load-new", "state-old", "state-new", "Diff", "state-diff", "StringUp", "StringDown", "StringUp-2nd"],
         "rule": PAIR_RULE,
@@ -168,7 +168,7 @@ PROPS = {
     "C13": {
         "level": "proof",
         "lean_modules": ["SqlizeModel.Props.C13", "SqlizeModel.Props.TieElement", "SqlizeModel.Props.TieApiLoad"],
-        "theorems": ["Sqlize.C13.default_order", "Sqlize.C13.ignore_same_statements", "Sqlize.C13.ignore_no_position", "Sqlize.C13.ignore_appends", "Sqlize.C13.printed_ignore", "Sqlize.walkCols_up_ignore_refines", "Sqlize.C13.columns_from_scripts", "Sqlize.columns_end_to_end_ignore", "Sqlize.Tie.element_skeleton_as_modelled", "Sqlize.Tie.api_load_skeleton_as_modelled", "Sqlize.C13.option_changes_positions_only", "Sqlize.C13.option_predicates", "Sqlize.Migration.strip_migrate"],
+        "theorems": ["Sqlize.C13.default_order", "Sqlize.C13.ignore_same_statements", "Sqlize.C13.ignore_no_position", "Sqlize.C13.ignore_appends", "Sqlize.C13.printed_ignore", "Sqlize.walkCols_up_ignore_refines", "Sqlize.C13.columns_from_scripts", "Sqlize.columns_end_to_end_ignore", "Sqlize.Tie.element_skeleton_as_modelled", "Sqlize.Tie.api_load_skeleton_as_modelled", "Sqlize.C13.option_changes_positions_only", "Sqlize.C13.option_predicates", "Sqlize.Migration.strip_migrate", "Sqlize.C13.stripped_migration_same_schema", "Sqlize.exec_strip", "Sqlize.DBR.equivUnordered"],
         "suites": [{"name": "pair"}, {"name": "history"}],
         "corr_points": ["load-old", "load-new", "state-old", "state-new", "Diff", "state-diff", "StringUp", "StringDown"],
         "rule": PAIR_RULE,
